@@ -275,7 +275,14 @@ func (f *DefaultFanController) UpdateFanSpeed() error {
 func (f *DefaultFanController) RunInitializationSequence() (err error) {
 	fan := f.fan
 
-	err1 := f.computePwmMap()
+	// the whole analysis (pwm map sweep and rpm curve measurement) of a fan
+	// must not overlap with the analysis of another fan
+	if !configuration.CurrentConfig.RunFanInitializationInParallel {
+		InitializationSequenceMutex.Lock()
+		defer InitializationSequenceMutex.Unlock()
+	}
+
+	err1 := f.computePwmMapLocked()
 	if err1 != nil {
 		ui.Warning("Error computing PWM map: %v", err1)
 	}
@@ -594,7 +601,12 @@ func (f *DefaultFanController) computePwmMap() (err error) {
 		InitializationSequenceMutex.Lock()
 		defer InitializationSequenceMutex.Unlock()
 	}
+	return f.computePwmMapLocked()
+}
 
+// computePwmMapLocked is computePwmMap for callers that already hold the
+// InitializationSequenceMutex (or do not need it)
+func (f *DefaultFanController) computePwmMapLocked() (err error) {
 	var configOverride *map[int]int
 
 	switch f := f.fan.(type) {
